@@ -606,7 +606,11 @@ fn exec_op(
             if v == want {
                 break Res::V(v);
             }
-            loom::thread::yield_now();
+            if prog.objs.spin_hint {
+                loom::hint::spin_loop();
+            } else {
+                loom::thread::yield_now();
+            }
         },
         K::CellRead { c } => {
             o.cells[c].with(|p| unsafe { std::ptr::read_volatile(p) });
